@@ -369,8 +369,9 @@ def run_compiler_check(ctx, res, prop):
         # the instance lies in the class of one of the Lean fragment theorems (C02_fragment_partial: single tree-like
         # definition; C02_fragment_consts: + constants; C02_fragment_multi / C02_fragment_named: straight-line
         # definition lists, uncompute off – the driver's `in_fragment` is their disjunction for this run).
-        # PORT-PENDING: these theorems were proved for the model of the unrepaired compiler and are parked until
-        # QV/Proofs/CompilerSem*.lean are ported (docs/notes/PORT-PENDING.md); the class flags are still reported
+        # PORT-PENDING: C02_fragment_partial is ported to the model of the repaired compiler; the other three were
+        # proved for the model of the unrepaired compiler and are parked until QV/Proofs/CompilerSem2*.lean are
+        # ported (docs/notes/PORT-PENDING.md); the class flags are still reported
         # and a model instance of a class that the Lean validator rejects is still a disagreement (it would refute
         # the statement that is to be re-proved)
         in_frag = bool(prop == "C02" and rep is not None and not mismatch and rep.get("in_fragment"))
@@ -442,8 +443,9 @@ def run_compiler_check(ctx, res, prop):
         res.notes.append(f"{stats['in_fragment']} compiled instances lie in the decidable class of a Lean fragment theorem "
                          "(C02_fragment_partial: one tree-like definition; C02_fragment_consts: + constants; "
                          "C02_fragment_multi / C02_fragment_named: straight-line definition lists with re-used freed ancillas, "
-                         "uncompute off) with the model reproducing the real gate list; these theorems are PORT-PENDING "
-                         "(proved for the model of the unrepaired compiler, parked until the semantic proofs are ported); "
+                         "uncompute off) with the model reproducing the real gate list; C02_fragment_partial is proved for the "
+                         "model of the repaired compiler, the other three are PORT-PENDING (proved for the model of the "
+                         "unrepaired compiler, parked until CompilerSem2*.lean are ported); "
                          f"{stats['in_fragment_bad']} of these instances fail")
     if prop in ("C03", "C06"):
         thm, cls = (("C03_fragment_partial", "inCleanFragment") if prop == "C03" else ("C06_fragment_partial", "inXorFragment"))
